@@ -77,11 +77,22 @@ def build_history(rng, srv, spool):
     t = now
     conn = 0
     stalls = 0
+    # job control: in a quarter of the histories an operator stops and continues executors (kill -STOP/-CONT, ^Z and fg
+    # on a foreground daemon's process group); a stopped executor is as alive as a running one
+    jobctl = rng.random() < 0.25
+    stopped = []
 
     def advance(to):
         nonlocal t, stalls
         while t < to:
             step = min(to, t + rng.choice([span / 7.0, span / 3.0, span]))
+            if jobctl and rng.random() < 0.5:
+                if stopped and rng.random() < 0.5:
+                    sc.add("cont %d" % stopped.pop(rng.randrange(len(stopped))))
+                else:
+                    k = rng.randrange(0, 12)
+                    stopped.append(k)
+                    sc.add("stop %d" % k)
             r = rng.random()
             if r < 0.1:
                 dt = rng.choice([0.5, 3.0, 12.0])
@@ -142,6 +153,11 @@ def run_history(root, srv, part, rng):
         st = sched.check_maxsimul(events, incs, lambda k, d: fails.append((k, d)))
         # a limited task must not lose or gain occurrences either: every due occurrence gets one spawn, run or no-run
         sched.check_schedule(events, incs, t_end, lambda k, d: fails.append(("schedule/" + k, d)))
+        nstop = out.count("\nSTOP ")
+        if nstop:
+            part.count("executors_stopped_while_running", nstop)
+            part.count("executors_continued", out.count("\nCONT "))
+            part.count("histories_with_stopped_executors")
         for k in st:
             if k != "max_running":
                 part.count(k, st[k])
